@@ -203,17 +203,22 @@ Section sound.
   Variable D : decls.
   Variable sigs : list fsig.
   Variable P : program.          (* the ELABORATED program *)
+  (* bc = the interpreter's treatment of conditionals (true: boxed to the join type; false: as
+     interpreter_expression.go is written); strict = the checker's guard on conditionals.
+     The interpreter as written is only covered for programs accepted under the guard. *)
+  Variable bc strict : bool.
+  Hypothesis Hbc : bc = false -> strict = true.
 
   (* stated pointwise so that [subst] never eliminates D *)
   Hypothesis HD : forall n, nth_error (p_decls P) n = nth_error D n.
   (* every function of P is the elaboration of a checked body, with the signature in sigs *)
   Hypothesis HF : forall f fd, nth_error (p_funs P) f = Some fd ->
     nth_error sigs f = Some (fn_params fd, fn_ret fd) /\
-    exists b0 i r, check_block (mkCenv D sigs (fn_ret fd)) (fn_params fd) [] false b0 = Some (fn_body fd, i, r)
+    exists b0 i r, check_block (mkCenv D sigs (fn_ret fd) strict) (fn_params fd) [] false b0 = Some (fn_body fd, i, r)
                    /\ (fn_ret fd = TVoid \/ r = true).
   Hypothesis HS : forall f sg, nth_error sigs f = Some sg -> exists fd, nth_error (p_funs P) f = Some fd.
 
-  Definition C (rt : ty) : cenv := mkCenv D sigs rt.
+  Definition C (rt : ty) : cenv := mkCenv D sigs rt strict.
 
   Definition post_e (G : list ty) (inv : list nat) (t : ty) (r : res (val * env)) : Prop :=
     match r with
@@ -236,7 +241,7 @@ Section sound.
   Definition IHE (n : nat) : Prop :=
     forall rt G inv e e' t inv' r,
       check_expr (C rt) G inv e = Some (e', t, inv') -> env_ok D G inv r ->
-      post_e G inv' t (eval P true n e' r).
+      post_e G inv' t (eval P bc n e' r).
 
   (* values of an expression list: as many as expressions, the k-th typed by the k-th target *)
   Definition list_post (es : exprs) (tgt : nat -> ty) (i : nat) (vs : list val) : Prop :=
@@ -246,7 +251,7 @@ Section sound.
   Definition IHL (n : nat) : Prop :=
     forall rt G inv es tgt i es' inv' r,
       check_list (C rt) G inv es tgt i = Some (es', inv') -> env_ok D G inv r ->
-      post_l G inv' (list_post es tgt i) (evals P true n es' tgt i r).
+      post_l G inv' (list_post es tgt i) (evals P bc n es' tgt i r).
 
   Fixpoint pairs_ok (tk tv : ty) (vs : list val) : Prop :=
     match vs with
@@ -258,7 +263,7 @@ Section sound.
   Definition IHC (n : nat) : Prop :=
     forall f fd args,
       nth_error (p_funs P) f = Some fd -> wt_list D args (fn_params fd) = true ->
-      post_v (fn_ret fd) (callf P true n f args).
+      post_v (fn_ret fd) (callf P bc n f args).
 
   (* use an induction hypothesis on a sub-evaluation that occurs in the goal *)
   Ltac ih_e IH Hc He v r Hv He' :=
@@ -529,14 +534,23 @@ Section sound.
         split; [assumption | apply env_ok_app_l; assumption].
     - (* ECond *) inv_check Hc. simpl.
       apply checked_join_sub in E2 as [Hj1 Hj2].
+      assert (Huni : bc = false -> t0 = t /\ t1 = t).
+      { intro Hb. rewrite (Hbc Hb) in E3. simpl in E3.
+        apply andb_true_iff in E3 as [H1 H2]. apply ty_eqb_eq in H1. apply ty_eqb_eq in H2. split; assumption. }
       ih_e IH E He vc r0 Hvc He0. simpl.
       apply wt_bool_inv in Hvc as (b & ->). destruct b.
       + ih_e IH E0 He0 va r1 Hva He1. simpl.
-        do_transfer (wt_wfv D _ _ Hva) (wt_sub D _ _ Hva) Hj1 x Hx. simpl.
-        split; [assumption | apply env_ok_app_l; assumption].
+        destruct bc.
+        * do_transfer (wt_wfv D _ _ Hva) (wt_sub D _ _ Hva) Hj1 x Hx. simpl.
+          split; [assumption | apply env_ok_app_l; assumption].
+        * destruct (Huni eq_refl) as [<- _]. simpl.
+          split; [assumption | apply env_ok_app_l; assumption].
       + ih_e IH E1 He0 vb r1 Hvb He1. simpl.
-        do_transfer (wt_wfv D _ _ Hvb) (wt_sub D _ _ Hvb) Hj2 x Hx. simpl.
-        split; [assumption | apply env_ok_app_r; assumption].
+        destruct bc.
+        * do_transfer (wt_wfv D _ _ Hvb) (wt_sub D _ _ Hvb) Hj2 x Hx. simpl.
+          split; [assumption | apply env_ok_app_r; assumption].
+        * destruct (Huni eq_refl) as [_ <-]. simpl.
+          split; [assumption | apply env_ok_app_r; assumption].
     - (* EForce *) inv_check Hc. simpl.
       ih_e IH E He va r1 Hva He1. simpl.
       apply wt_opt_inv in Hva as [-> | (w & -> & Hw)]; simpl; [exact I | split; assumption].
@@ -680,7 +694,7 @@ Section sound.
   Definition IHT (n : nat) : Prop :=
     forall rt G inv g g' tg inv' r,
       check_target (C rt) G inv g = Some (g', tg, inv') -> env_ok D G inv r ->
-      post_t G inv' g tg (eval_target P true n g' r).
+      post_t G inv' g tg (eval_target P bc n g' r).
 
   Lemma intval_index vi ti : is_intty ti = true -> wt D vi ti = true -> exists z, index_of vi = Some z.
   Proof.
@@ -722,6 +736,338 @@ Section sound.
       split; [assumption|]. split; [assumption|]. exists troot. split; [assumption|].
       eexists. split; [apply tpath_full; eassumption|].
       eexists. split; eassumption.
+  Qed.
+
+  (* ---------------------------------------------------------------- statements *)
+
+  (* what the checker's flags promise about the outcome of a statement:
+     ret    : the statement never completes normally (it returns, halts or jumps);
+     inloop : break/continue only occur inside loops;
+     a returned value has the declared return type *)
+  Definition out_ok (rt : ty) (inloop ret : bool) (o : outcome) : Prop :=
+    (ret = true -> o <> ONormal) /\
+    (inloop = false -> o <> OBreak /\ o <> OContinue) /\
+    (forall v, o = OReturn v -> wt D v rt = true).
+
+  Definition post_s (rt : ty) (G : list ty) (inv : list nat) (inloop ret : bool)
+             (r : res (outcome * env)) : Prop :=
+    match r with
+    | Ok (o, r') => env_ok D G inv r' /\ out_ok rt inloop ret o
+    | Err e => err_ok e
+    end.
+
+  Definition post_b (rt : ty) (G : list ty) (inv : list nat) (inloop ret : bool)
+             (r : res (outcome * env)) : Prop :=
+    match r with
+    | Ok (o, r') => env_ok D G (scope (length G) inv) (firstn (length G) r') /\ out_ok rt inloop ret o
+    | Err e => err_ok e
+    end.
+
+  Definition out_loop (rt : ty) (o : outcome) : Prop :=
+    match o with
+    | ONormal => True
+    | OReturn v => wt D v rt = true
+    | _ => False
+    end.
+
+  Definition IHS (n : nat) : Prop :=
+    forall rt G inv il s s' G' inv' ret r,
+      check_stmt (C rt) G inv il s = Some (s', G', inv', ret) -> env_ok D G inv r ->
+      post_s rt G' inv' il ret (exec P bc n s' r).
+
+  Definition IHB (n : nat) : Prop :=
+    forall rt G inv il b b' inv' ret r,
+      check_block (C rt) G inv il b = Some (b', inv', ret) -> env_ok D G inv r ->
+      post_b rt G inv' il ret (exec_block P bc n b' r).
+
+  Definition IHFor (n : nat) : Prop :=
+    forall rt G i0 t b b' i1 rr l r,
+      check_block (C rt) (G ++ [t]) i0 true b = Some (b', i1, rr) ->
+      subset (scope (length G) i1) i0 = true ->
+      env_ok D G i0 r -> forallb (elem_ok D t) l = true ->
+      match for_loop P bc n l t b' r with
+      | Ok (o, r') => env_ok D G i0 r' /\ out_loop rt o
+      | Err e => err_ok e
+      end.
+
+  Lemma out_normal rt il : out_ok rt il false ONormal.
+  Proof. repeat split; intros; discriminate. Qed.
+
+  Lemma out_loop_ok rt il o : out_loop rt o -> out_ok rt il false o.
+  Proof.
+    intro H. repeat split; intros; try discriminate; destruct o; simpl in H; try contradiction; try discriminate.
+    inversion H0; subst; exact H.
+  Qed.
+
+  Lemma out_return rt il v : wt D v rt = true -> out_ok rt il true (OReturn v).
+  Proof. intro H. repeat split; intros; try discriminate. inversion H0; subst; exact H. Qed.
+
+  Lemma out_ok_and rt il a b o : out_ok rt il a o -> out_ok rt il (a && b) o.
+  Proof.
+    intros (H1 & H2 & H3). split; [|split; assumption]. intro H. apply andb_true_iff in H as [H _]. auto.
+  Qed.
+
+  Lemma out_ok_and_r rt il a b o : out_ok rt il b o -> out_ok rt il (a && b) o.
+  Proof.
+    intros (H1 & H2 & H3). split; [|split; assumption]. intro H. apply andb_true_iff in H as [_ H]. auto.
+  Qed.
+
+  (* leaving the scope of a block whose context extended G *)
+  Lemma env_ok_pop_block G G2 inv r :
+    env_ok D (G ++ G2) (scope (length (G ++ G2)) inv) (firstn (length (G ++ G2)) r) ->
+    env_ok D G (scope (length G) inv) (firstn (length G) r).
+  Proof.
+    intro H. apply env_ok_pop in H. rewrite firstn_firstn in H.
+    rewrite app_length in H. rewrite Nat.min_l in H by lia.
+    eapply env_ok_weaken; eauto. intros i Hi. rewrite !mem_scope in Hi. rewrite mem_scope.
+    apply andb_true_iff in Hi as [H1 Hi]. apply andb_true_iff in Hi as [_ Hi]. rewrite H1, Hi. reflexivity.
+  Qed.
+
+  Lemma elem_ok_weaken te t l : subtype te t = true -> forallb (elem_ok D te) l = true -> forallb (elem_ok D t) l = true.
+  Proof.
+    intros Hs H. rewrite forallb_forall in *. intros x Hx. specialize (H x Hx).
+    unfold elem_ok in *. apply andb_true_iff in H as [H1 H2]. rewrite H1. simpl. eapply subtype_trans; eauto.
+  Qed.
+
+  Ltac ih_b IHb Hc He o r Heo Hout :=
+    let H := fresh "Hih" in
+    pose proof (IHb _ _ _ _ _ _ _ _ _ Hc He) as H;
+    match type of H with
+    | post_b _ _ _ _ _ ?ev => destruct ev as [[o r]|] eqn:?; [destruct H as [Heo Hout] | simpl; exact H]
+    end.
+
+  Lemma stmt_step n : IHE n -> IHT n -> IHS n -> IHB n -> IHFor n -> IHS (S n).
+  Proof.
+    intros IH IHt IHs IHb IHf rt G inv il s s' G' inv' ret r Hc He.
+    pose proof Hc as Hc0.
+    destruct s;
+      first [ rewrite check_stmt_SIf in Hc | rewrite check_stmt_SIfLet in Hc
+            | rewrite check_stmt_SWhile in Hc | rewrite check_stmt_SFor in Hc
+            | cbn in Hc ].
+    - (* SLet *) inv_check Hc. clear Hc0. simpl.
+      ih_e IH E He v r1 Hv He1. simpl.
+      apply andb_true_iff in E0 as [E0 _]. apply andb_true_iff in E0 as [Hs _].
+      do_transfer (wt_wfv D _ _ Hv) (wt_sub D _ _ Hv) Hs w Hw. simpl.
+      split; [apply env_ok_push; assumption | apply out_normal].
+    - (* SAssign *) inv_check Hc. clear Hc0. simpl.
+      apply andb_true_iff in E1 as [E1 Hm2]. apply andb_true_iff in E1 as [E1 Hm1].
+      apply andb_true_iff in E1 as [Hs _].
+      apply negb_true_iff in Hm1. apply negb_true_iff in Hm2.
+      ih_t IHt E He x q lst r1 He1 Hx troot Hroot Htp. simpl. subst x.
+      assert (Hpre : match (match lst with
+                            | Some _ => let* root := read_var r1 (root_of g) in get_path root q
+                            | None => Ok VVoid
+                            end) with Ok _ => True | Err e => err_ok e end).
+      { destruct lst as [st|]; [|exact I].
+        destruct (env_ok_read D _ _ _ _ _ He1 Hroot Hm1) as (root & Hr & Hwr). rewrite Hr. simpl.
+        destruct Htp as (tc & Hp & _).
+        pose proof (get_path_ok D q root troot tc (wt_wfv D _ _ Hwr) (wt_sub D _ _ Hwr) Hp) as Hg.
+        destruct (get_path root q); [exact I | exact Hg]. }
+      match type of Hpre with match ?pre with _ => _ end => destruct pre as [u|]; simpl; [|exact Hpre] end.
+      ih_e IH E0 He1 v r2 Hv He2. simpl.
+      do_transfer (wt_wfv D _ _ Hv) (wt_sub D _ _ Hv) Hs w Hw. simpl.
+      pose proof (assign_path_ok D _ _ _ _ _ _ _ _ _ He2 Hroot Hm2 Htp Hw) as Ha.
+      match type of Ha with match ?a with _ => _ end => destruct a as [r3|]; simpl; [|exact Ha] end.
+      split; [assumption | apply out_normal].
+    - (* SSwap *) inv_check Hc. clear Hc0. simpl.
+      apply andb_true_iff in E1 as [E1 Hmy]. apply andb_true_iff in E1 as [Heq Hmx].
+      apply ty_eqb_eq in Heq. subst. apply negb_true_iff in Hmx. apply negb_true_iff in Hmy.
+      destruct (env_ok_read D _ _ _ _ _ He E Hmx) as (vx & Hrx & Hwx). rewrite Hrx. simpl.
+      destruct (env_ok_read D _ _ _ _ _ He E0 Hmy) as (vy & Hry & Hwy). rewrite Hry. simpl.
+      split; [|apply out_normal].
+      eapply env_ok_write; [eapply env_ok_write; [exact He | exact E | exact Hwy] | exact E0 | exact Hwx].
+    - (* SAppend *) inv_check Hc. clear Hc0. simpl.
+      apply andb_true_iff in E1 as [E1 Hm2]. apply andb_true_iff in E1 as [Hs Hm1].
+      apply negb_true_iff in Hm1. apply negb_true_iff in Hm2.
+      ih_t IHt E He x q lst r1 He1 Hx troot Hroot Htp. simpl. subst x.
+      apply tpath_full in Htp.
+      destruct (env_ok_read D _ _ _ _ _ He1 Hroot Hm1) as (root & Hr & Hwr). rewrite Hr. simpl.
+      pose proof (get_path_ok D _ root troot _ (wt_wfv D _ _ Hwr) (wt_sub D _ _ Hwr) Htp) as Hg.
+      match type of Hg with match ?a with _ => _ end => destruct a as [u|]; simpl; [|exact Hg] end.
+      ih_e IH E0 He1 v r2 Hv He2. simpl.
+      do_transfer (wt_wfv D _ _ Hv) (wt_sub D _ _ Hv) Hs w Hw. simpl.
+      pose proof (append_path_ok D _ _ _ _ _ _ _ _ He2 Hroot Hm2 Htp Hw) as Ha.
+      match type of Ha with match ?a with _ => _ end => destruct a as [r3|]; simpl; [|exact Ha] end.
+      split; [assumption | apply out_normal].
+    - (* SIf *) inv_check Hc. clear Hc0. simpl.
+      ih_e IH E He vc r1 Hvc He1. simpl.
+      apply wt_bool_inv in Hvc as (bb & ->). rewrite (env_ok_length D _ _ _ He1). destruct bb.
+      + ih_b IHb E0 He1 o r2 Heo Hout. simpl.
+        split; [apply env_ok_app_l; assumption | apply out_ok_and; assumption].
+      + ih_b IHb E1 He1 o r2 Heo Hout. simpl.
+        split; [apply env_ok_app_r; assumption | apply out_ok_and_r; assumption].
+    - (* SIfLet *) inv_check Hc. clear Hc0. simpl.
+      ih_e IH E He v r1 Hv He1. simpl.
+      rewrite (env_ok_length D _ _ _ He1).
+      apply wt_opt_inv in Hv as [-> | (w & -> & Hw)].
+      + ih_b IHb E1 He1 o r2 Heo Hout. simpl.
+        split; [apply env_ok_app_r; assumption | apply out_ok_and_r; assumption].
+      + pose proof (env_ok_push D _ _ _ _ _ He1 Hw) as Hep.
+        ih_b IHb E0 Hep o r2 Heo Hout. simpl.
+        apply env_ok_pop_block in Heo.
+        split; [apply env_ok_app_l; assumption | apply out_ok_and; assumption].
+    - (* SWhile *) inv_check Hc. simpl.
+      ih_e IH E He vc r1 Hvc He1. simpl.
+      apply wt_bool_inv in Hvc as (bb & ->). destruct bb.
+      + ih_b IHb E0 He1 o r2 Heo Hout. simpl.
+        rewrite (env_ok_length D _ _ _ He1).
+        pose proof (env_ok_subset D _ _ _ _ Heo E1) as He3.
+        destruct Hout as (_ & _ & Hret).
+        destruct o.
+        * exact (IHs _ _ _ _ _ _ _ _ _ _ Hc0 He3).
+        * simpl. split; [apply env_ok_app_l; assumption | apply out_normal].
+        * exact (IHs _ _ _ _ _ _ _ _ _ _ Hc0 He3).
+        * simpl. split; [apply env_ok_app_l; assumption|].
+          apply out_loop_ok. simpl. apply Hret. reflexivity.
+      + simpl. split; [apply env_ok_app_r; assumption | apply out_normal].
+    - (* SFor *) inv_check Hc. clear Hc0. simpl.
+      ih_e IH E He v r1 Hv He1. simpl.
+      pose proof (wt_wfv D _ _ Hv) as Hwv.
+      destruct (wt_arr_inv _ _ (wt_sub D _ _ Hv)) as (te0 & l & -> & Hte). simpl.
+      rewrite wfv_arr in Hwv.
+      pose proof (IHf rt _ _ _ _ _ _ _ l _ E1 E2 He1 (elem_ok_weaken _ _ _ Hte Hwv)) as Hf.
+      match type of Hf with match ?a with _ => _ end => destruct a as [[o r2]|]; simpl; [|exact Hf] end.
+      destruct Hf as [He2 Ho]. split; [assumption | apply out_loop_ok; assumption].
+    - (* SReturn *) destruct e as [e|]; cbn in Hc; inv_check Hc; clear Hc0; simpl.
+      + ih_e IH E He v r1 Hv He1. simpl.
+        apply andb_true_iff in E0 as [Hs _].
+        do_transfer (wt_wfv D _ _ Hv) (wt_sub D _ _ Hv) Hs w Hw. simpl.
+        split; [assumption | apply out_return; assumption].
+      + split; [assumption|]. apply out_return. cbn in E. apply ty_eqb_eq in E. rewrite E. reflexivity.
+    - (* SBreak *) inv_check Hc. simpl. split; [assumption|].
+      unfold out_ok; repeat split; intros; congruence.
+    - (* SContinue *) inv_check Hc. simpl. split; [assumption|].
+      unfold out_ok; repeat split; intros; congruence.
+    - (* SExpr *) inv_check Hc. clear Hc0. simpl.
+      ih_e IH E He v r1 Hv He1. simpl. split; [assumption|].
+      split; [|split; [intros _; split; congruence | intros; congruence]].
+      intro Ht. apply ty_eqb_eq in Ht. subst. exfalso. eapply wt_never_inv; eauto.
+    - (* SDestroy *) inv_check Hc. clear Hc0. simpl.
+      ih_e IH E He v r1 Hv He1. simpl. split; [assumption | apply out_normal].
+  Qed.
+
+  (* a statement only extends the variable context (let) *)
+  Lemma check_stmt_ctx rt G inv il s s' G' inv' ret :
+    check_stmt (C rt) G inv il s = Some (s', G', inv', ret) -> exists G2, G' = G ++ G2.
+  Proof.
+    intro Hc.
+    destruct s;
+      first [ rewrite check_stmt_SIf in Hc | rewrite check_stmt_SIfLet in Hc
+            | rewrite check_stmt_SWhile in Hc | rewrite check_stmt_SFor in Hc
+            | cbn in Hc ];
+      try (destruct e as [e|]; cbn in Hc);
+      inv_check Hc; try (exists []; rewrite app_nil_r; reflexivity).
+    eexists; reflexivity.
+  Qed.
+
+  Lemma env_ok_scope_app_l G n a b r : env_ok D G (scope n a) r -> env_ok D G (scope n (a ++ b)) r.
+  Proof.
+    intro H. eapply env_ok_weaken; eauto. intros i Hi. rewrite mem_scope in *. rewrite mem_app.
+    apply andb_true_iff in Hi as [H1 H2]. rewrite H1, H2. reflexivity.
+  Qed.
+
+  Lemma env_ok_scope_app_r G n a b r : env_ok D G (scope n b) r -> env_ok D G (scope n (a ++ b)) r.
+  Proof.
+    intro H. eapply env_ok_weaken; eauto. intros i Hi. rewrite mem_scope in *. rewrite mem_app.
+    apply andb_true_iff in Hi as [H1 H2]. rewrite H1, H2. rewrite orb_true_r. reflexivity.
+  Qed.
+
+  Lemma block_step n : IHS n -> IHB n -> IHB (S n).
+  Proof.
+    intros IHs IHb rt G inv il b b' inv' ret r Hc He.
+    rewrite check_block_eq in Hc. destruct b as [|s rest].
+    - inversion Hc; subst. simpl. split; [apply env_ok_pop0; assumption | apply out_normal].
+    - inv_check Hc. simpl.
+      destruct (check_stmt_ctx _ _ _ _ _ _ _ _ _ E) as (G2 & ->).
+      pose proof (IHs _ _ _ _ _ _ _ _ _ _ E He) as Hs.
+      match type of Hs with post_s _ _ _ _ _ ?ev => destruct ev as [[o r1]|] eqn:Ev; [|simpl; exact Hs] end.
+      destruct Hs as [He1 Ho1]. simpl.
+      destruct o.
+      + (* normal: continue with the rest *)
+        pose proof (IHb _ _ _ _ _ _ _ _ _ E0 He1) as Hb.
+        match type of Hb with post_b _ _ _ _ _ ?ev => destruct ev as [[o2 r2]|] eqn:Ev2; [|simpl; exact Hb] end.
+        destruct Hb as [He2 Ho2]. simpl. split.
+        * apply env_ok_scope_app_r. apply (env_ok_pop_block G G2). exact He2.
+        * destruct Ho1 as (Hn & _ & _).
+          match type of Hn with
+          | ?bb = true -> _ =>
+            assert (Hb0 : bb = false)
+              by (destruct bb; [exfalso; apply (Hn eq_refl); reflexivity | reflexivity]);
+            rewrite Hb0 in *
+          end.
+          exact Ho2.
+      + simpl. split; [apply env_ok_scope_app_l; apply (env_ok_pop D G G2); exact He1|].
+        destruct Ho1 as (H1 & H2 & H3). repeat split; try (intros; congruence); auto; apply H2; assumption.
+      + simpl. split; [apply env_ok_scope_app_l; apply (env_ok_pop D G G2); exact He1|].
+        destruct Ho1 as (H1 & H2 & H3). repeat split; try (intros; congruence); auto; apply H2; assumption.
+      + simpl. split; [apply env_ok_scope_app_l; apply (env_ok_pop D G G2); exact He1|].
+        destruct Ho1 as (H1 & H2 & H3). repeat split; try (intros; congruence); auto.
+  Qed.
+
+  Lemma for_step n : IHB n -> IHFor n -> IHFor (S n).
+  Proof.
+    intros IHb IHf rt G i0 t b b' i1 rr l r Hc Hsub He Hl.
+    destruct l as [|x rest]; simpl.
+    - split; [assumption | exact I].
+    - apply andb_true_iff in Hl as [Hx Hrest]. unfold elem_ok in Hx. apply andb_true_iff in Hx as [Hx1 Hx2].
+      pose proof (env_ok_push D _ _ _ _ _ He (box_wt D _ _ Hx1 Hx2)) as Hep.
+      ih_b IHb Hc Hep o r2 Heo Hout. simpl.
+      apply env_ok_pop_block in Heo.
+      rewrite (env_ok_length D _ _ _ He).
+      pose proof (env_ok_subset D _ _ _ _ Heo Hsub) as He3.
+      destruct Hout as (_ & _ & Hret).
+      destruct o.
+      + exact (IHf _ _ _ _ _ _ _ _ _ _ Hc Hsub He3 Hrest).
+      + simpl. split; [assumption | exact I].
+      + exact (IHf _ _ _ _ _ _ _ _ _ _ Hc Hsub He3 Hrest).
+      + simpl. split; [assumption | apply Hret; reflexivity].
+  Qed.
+
+  Lemma env_ok_args : forall args ps, wt_list D args ps = true -> env_ok D ps [] (map Some args).
+  Proof.
+    intros args ps H. split.
+    - rewrite map_length. apply wt_list_nth. exact H.
+    - intros i t o Hi Ho. rewrite nth_error_map in Ho.
+      destruct (nth_error args i) as [v|] eqn:Ev; simpl in Ho; [|discriminate].
+      inversion Ho; subst. simpl.
+      revert ps i H Hi Ev. induction args as [|a args IH]; destruct ps as [|p ps]; simpl; intros i H Hi Ev;
+        try discriminate; try (destruct i; discriminate).
+      apply andb_true_iff in H as [H1 H2]. destruct i; simpl in *.
+      + inversion Hi; inversion Ev; subst. exact H1.
+      + eapply IH; eauto.
+  Qed.
+
+  Lemma call_step n : IHB n -> IHC (S n).
+  Proof.
+    intros IHb f fd args Hfd Hargs. simpl. rewrite Hfd.
+    destruct (HF _ _ Hfd) as [_ (b0 & i & rr & Hc & Hret)].
+    pose proof (env_ok_args _ _ Hargs) as He.
+    change (mkCenv D sigs (fn_ret fd) strict) with (C (fn_ret fd)) in Hc.
+    ih_b IHb Hc He o r2 Heo Hout. simpl.
+    destruct Hout as (Hn & Hj & Hr).
+    destruct o; simpl.
+    - destruct Hret as [Hv | ->].
+      + rewrite Hv. simpl. reflexivity.
+      + exfalso. apply (Hn eq_refl). reflexivity.
+    - destruct (Hj eq_refl) as [Hb _]. apply Hb. reflexivity.
+    - destruct (Hj eq_refl) as [_ Hc']. apply Hc'. reflexivity.
+    - apply Hr. reflexivity.
+  Qed.
+
+  (* ---------------------------------------------------------------- the induction on fuel *)
+
+  Theorem all_ok : forall n, IHE n /\ IHL n /\ IHT n /\ IHS n /\ IHB n /\ IHFor n /\ IHC n.
+  Proof.
+    induction n as [|n (IH & IHl & IHt & IHs & IHb & IHf & IHc)].
+    - repeat split; red; intros; simpl; exact I.
+    - pose proof (eval_step n IH IHl IHc) as H1.
+      pose proof (list_step n IH IHl) as H2.
+      pose proof (target_step n IH IHt) as H3.
+      pose proof (stmt_step n IH IHt IHs IHb IHf) as H4.
+      pose proof (block_step n IHs IHb) as H5.
+      pose proof (for_step n IHb IHf) as H6.
+      pose proof (call_step n IHb) as H7.
+      repeat split; assumption.
   Qed.
 
 End sound.
